@@ -280,7 +280,7 @@ def rule_pre1(ctx):
     tc = tff.typecheck(items, sig, types)
     ctx.add("PRE-1", "well-typed", not tc, where, "every axiom is well-typed, all variables are bound, names unique: %s" % (tc[:3] or "ok"))
     ctx.add("PRE-1", "no-braces", "{" not in text and "}" not in text, where, "the file is used as a format string and contains no brace")
-    ctx.floor("PRE-1", "preamble_items", len(items), 20)
+    ctx.floor("PRE-1", "preamble_items", len(items), 5)
 
 
 def rule_binding(ctx):
